@@ -96,6 +96,19 @@ Print Assumptions C08_extents_shape_mismatch_refuted.
 Theorem C08_replace_all_refuted : leaves_trace code_today (OLSet 3 LRefs [HEnt 1; HNone]).
 Proof. exact refuted_replace_all. Qed.
 Print Assumptions C08_replace_all_refuted.
+Theorem C08_setData_element_type_refuted : leaves_trace before_c08b (OSetDataT 1 DString [5%Z]).
+Proof. exact refuted_setdata_type. Qed.
+Print Assumptions C08_setData_element_type_refuted.
+Theorem C08_appendData_element_type_refuted : leaves_trace before_c08b (OAppendData 1 DString [2%Z] 0).
+Proof. exact refuted_append_type. Qed.
+Print Assumptions C08_appendData_element_type_refuted.
+Theorem C08_createDataFrame_empty_column_name_refuted :
+  leaves_trace before_c08b (OCreate (Some 0) KFrame "f2" "t" (XFrame [col "c" DInt32; col "" DDouble])).
+Proof. exact refuted_df_colname. Qed.
+Print Assumptions C08_createDataFrame_empty_column_name_refuted.
+Theorem C08_createDataArray_rank33_refuted : leaves_trace before_c08b (OCreate (Some 0) KArray "a2" "t" (XArray DDouble (repeat 1%Z 33))).
+Proof. exact refuted_array_rank33. Qed.
+Print Assumptions C08_createDataArray_rank33_refuted.
 (** repaired in /repo since (491c620, 2f44815); shown on the model of the old code *)
 Theorem C08_values_mixed_types_refuted : leaves_trace old_props (OSetValues 9 [DInt64; DInt64; DString]).
 Proof. exact refuted_values. Qed.
@@ -116,7 +129,7 @@ Print Assumptions C08_createProperty_unholdable_type_refuted.
 Definition c08_switches (b : behaviour) : list bool :=
   [b_df_checks b; b_df_cols_check b; b_mtag_pos_first b; b_array_checks_first b; b_meta_lookup_first b;
    b_link_lookup_first b; b_ext_check_first b; b_values_check_first b; b_prop_type_check b; b_prop_values_uniform b;
-   b_replace_all_atomic b].
+   b_replace_all_atomic b; b_setdata_type_first b; b_append_type_first b; b_df_colname_check b; b_array_rank_max b].
 
 (** the hand copy of [util::looksLikeUUID] in the model is the definition the translator regenerates from
     src/util/util.cpp on every run *)
